@@ -69,8 +69,12 @@ def next_is_eq(t):
     return None
 
 
+ROLE = {"start": 0, "vstart": 1, "op": 2}
+
+
 def run(ctx):
     fx = ctx.fx
+    ROLE.update(start=0, vstart=1, op=2)
     paths = ctx.paths(DN)
     body = ctx.body(DN)
     if paths:
@@ -79,7 +83,9 @@ def run(ctx):
         for p in paths:
             if p.end[0] != "back":
                 continue
-            pushes = [e for e in p.events if ev_is(e, "Vec::push") and isinstance(e.args[1], tuple) and e.args[1][0] == "agg" and e.args[1][1] == "tuple" and len(e.args[1][4]) == 3]
+            # an operator record: a 3-tuple or a 3-field struct of (where the operator starts, where its version starts, which operator)
+            pushes = [e for e in p.events if ev_is(e, "Vec::push") and isinstance(e.args[1], tuple) and e.args[1][0] == "agg" and e.args[1][1] in ("tuple", "adt") and len(e.args[1][4]) == 3
+                      and any(agg_variant(x) and agg_variant(x)[0] == OP for x in e.args[1][4])]
             ch = None
             for c in p.conds():
                 m = str_eq_lit(c.term)
@@ -94,7 +100,18 @@ def run(ctx):
             if len(pushes) != 1 or ch is None:
                 ctx.violation("D1-SCAN", DN, "scan-path", "a scan-loop iteration does not push exactly one operator record for a matched '<'/'>'", fn_span(body))
                 continue
-            idx, start, opt = pushes[0].args[1][4]
+            ops3 = list(pushes[0].args[1][4])
+            # roles by what the components are (so that the field order of a record struct does not matter): the operator is the DeweyOp, the
+            # operator position is the index yielded by match_indices, the version start is the other number
+            oi = [i for i, x in enumerate(ops3) if agg_variant(x) and agg_variant(x)[0] == OP]
+            ni = [i for i in range(3) if i not in oi]
+            ii = [i for i in ni if not (isinstance(ops3[i], tuple) and ops3[i][0] == "binop")]
+            if len(oi) != 1 or len(ii) != 1:
+                ctx.violation("D1-SCAN", DN, "scan-path", "the operator record pushed in the scan loop is not (operator position, version start, operator)", fn_span(body))
+                continue
+            ROLE["op"], ROLE["start"] = oi[0], ii[0]
+            ROLE["vstart"] = [i for i in ni if i != ii[0]][0]
+            idx, start, opt = ops3[ROLE["start"]], ops3[ROLE["vstart"]], ops3[ROLE["op"]]
             # '=' follows the matched operator character: the test must be about the position right after THIS match
             eqf = any(v for i, v in eqs if i == idx)
             a = agg_variant(opt)
@@ -143,9 +160,9 @@ def run(ctx):
             return None
 
         def op_at(t):
-            """i if t is deweyops[i].2"""
+            """i if t is the operator of record i"""
             r = rec_field(t)
-            return r[0] if r is not None and r[1] == 2 else None
+            return r[0] if r is not None and r[1] == ROLE["op"] else None
 
         def consistent(p, n, kinds):
             for c in p.conds():
@@ -186,7 +203,8 @@ def run(ctx):
 
         # ---- slices
         def rec(i, f):
-            return lambda t: rec_field(t) == (i, f)
+            # f is a role given by its position in the (start, version start, operator) triple
+            return lambda t: rec_field(t) == (i, ROLE[("start", "vstart", "op")[f]])
 
         def slice_of(t):
             t = strip_refs(t)
